@@ -238,6 +238,46 @@ def check_end_pointers(idx: Index, rep: Report) -> None:
                 r.fail(inst, Finding("C01.R1e", f.fq, f"end-pointer:{endf}", f"`{unparse(st)[:80]}` links `{unparse(node)}` {'behind' if 'next' in fld else 'in front of'} a node whose {fld} (`{sorted(link_reads)[0]}`) is None at the end of the list, but the function never stores `{endf} = {unparse(node)}`: the container's {endf} keeps pointing at the old end, so backward / forward traversals disagree", f"{f.module.relpath}:{st.lineno}"))
 
 
+END_READ = re.compile(r"^(.*)\._?(first|last)_(op|block)$")
+
+
+def check_end_node_relinked(idx: Index, rep: Report) -> None:
+    """`E.next = V` where E is the container's current last node (read from `<C>.last_*`) and V is a node makes V (or
+    the tail of its chain) the new end: the function must store `<C>._last_*` on every path through that store
+    (symmetric for prev / first)."""
+    r = rep.rule("C01.R1f", "a store that links a new node behind the container's current last node (in front of its first node) is accompanied, on every path through it, by a store of the container's last (first) pointer", floor=3)
+    mi = idx.module(CORE)
+    for f in raw_funcs(mi):
+        stores = [x for x in link_stores(f.node) if x[2] in END_OF and not (isinstance(x[3], ast.Constant) and x[3].value is None)]
+        if not stores:
+            continue
+        cx = FnCtx(f)
+        cfg = cx.cfg
+        for st, recv, fld, val in stores:
+            at = cfg.node_of(st)
+            endf = END_OF[fld]
+            conts = set()
+            for t in cx.texts(recv, at):
+                m = END_READ.match(t)
+                if m and "_" + m.group(2) + "_" + m.group(3) == endf:
+                    conts.add(m.group(1))
+            if not conts:
+                continue
+            end_nodes = set()
+            for n in walk_local(f.node):
+                if isinstance(n, ast.Assign) and len(n.targets) == 1 and isinstance(n.targets[0], ast.Attribute) and n.targets[0].attr == endf:
+                    en = cfg.node_of(n)
+                    if cx.texts(n.targets[0].value, en) & conts:
+                        end_nodes.add(en)
+            inst = f"{f.fq}:{canon(unparse(recv))}.{fld}"
+            before = cfg.path_avoiding(cfg.entry, at, lambda n: n.id in end_nodes, follow_exc=False)
+            after = cfg.path_avoiding(at, cfg.exit, lambda n: n.id in end_nodes, follow_exc=False)
+            if before is not None and after is not None:
+                r.fail(inst, Finding("C01.R1f", f.fq, f"end-node-relinked:{endf}", f"`{unparse(st)[:80]}` links a node {'behind' if 'next' in fld else 'in front of'} `{sorted(conts)[0]}`'s current {'last' if 'next' in fld else 'first'} node, but a path through it never stores `{sorted(conts)[0]}.{endf}`: the container's end pointer keeps naming the old end, so traversals from the two ends disagree and the next append cuts the new nodes off", f"{f.module.relpath}:{st.lineno}"))
+            else:
+                r.ok(inst, f"{f.module.relpath}:{st.lineno} `{unparse(st)[:60]}`: {endf} stored on every path")
+
+
 def check_writers(idx: Index, rep: Report) -> None:
     r = rep.rule("C01.R2", "link / parent / use-list / argument-list fields are written only by the primitives of xdsl/ir/core.py (+ Rewriter.replace_value_with_new_type)", floor=60)
     fields = LINK_FIELDS | END_FIELDS | USE_FIELDS | {"parent"}
@@ -618,6 +658,7 @@ def check_attach_last(idx: Index, rep: Report) -> None:
 def check(idx: Index, rep: Report, tier: str) -> str:
     rep.run(check_pairing, idx, rep)
     rep.run(check_end_pointers, idx, rep)
+    rep.run(check_end_node_relinked, idx, rep)
     rep.run(check_writers, idx, rep)
     rep.run(check_use_pairing, idx, rep)
     rep.run(check_arg_shift, idx, rep)
